@@ -75,6 +75,10 @@ class SM:
                 return f'({pre}Is {c})'
             if isinstance(t.ops[0], ast.NotEq):
                 return f'({pre}IsNot {c})'
+        if isinstance(t, ast.UnaryOp) and isinstance(t.op, ast.Not):
+            return f'(CNot {self.cond(t.operand, ctx)})'
+        if isinstance(t, ast.BoolOp) and isinstance(t.op, ast.And) and len(t.values) == 2:
+            return f'(CAnd {self.cond(t.values[0], ctx)} {self.cond(t.values[1], ctx)})'
         table = {
             'frame.dlci == 0': 'CDlci0',
             'frame.type == FrameType.DM': 'CTypeDm',
@@ -87,6 +91,7 @@ class SM:
             'dlc_params := self.acceptor(channel_number)': 'CAccepts',
             'dlc is None': 'CDlcUnknown',
             'self.open_result': 'COpenPending',
+            'self.acceptable_frame_size(pn.max_frame_size)': 'CSizeOk',
         }
         if src in table:
             return table[src]
